@@ -447,35 +447,35 @@ type TupleCase struct {
 
 // tupleScope gives the enumerated box for k-tuples: alphabet size and the maximal length of
 // every position. One box per (type, k), so the enumeration stays injective.
-func tupleScope(typ, k int, thorough bool) (alpha int, maxLen []int) {
+func tupleScope(typ, k int, thorough bool) (alpha int, maxLen [enumMaxK]int) {
 	big := typ == typInt
 	switch {
 	case big && thorough:
 		switch k {
 		case 1:
-			return 4, []int{8}
+			return 4, [enumMaxK]int{8}
 		case 2:
-			return 4, []int{6, 4}
+			return 4, [enumMaxK]int{6, 4}
 		default:
-			return 3, []int{5, 4, 4}
+			return 3, [enumMaxK]int{5, 4, 4}
 		}
 	case big || thorough:
 		switch k {
 		case 1:
-			return 4, []int{6}
+			return 4, [enumMaxK]int{6}
 		case 2:
-			return 3, []int{6, 4}
+			return 3, [enumMaxK]int{6, 4}
 		default:
-			return 3, []int{4, 3, 3}
+			return 3, [enumMaxK]int{4, 3, 3}
 		}
 	}
 	switch k {
 	case 1:
-		return 4, []int{5}
+		return 4, [enumMaxK]int{5}
 	case 2:
-		return 3, []int{4, 3}
+		return 3, [enumMaxK]int{4, 3}
 	default:
-		return 3, []int{3, 2, 2}
+		return 3, [enumMaxK]int{3, 2, 2}
 	}
 }
 
@@ -483,13 +483,21 @@ const enumMaxK = 3
 
 var kLabels = []string{"", "k=1", "k=2", "k=3"}
 
+// enumTuple draws type, key function, k, then every slice (length first, then the elements).
+// Every shard walks the whole tree, so the slices share one backing array (capacity-limited, never appended to).
 func enumTuple(s pbt.Src, thorough bool) TupleCase {
 	c := TupleCase{Typ: s.Intn(nTyp), Fn: s.Intn(nFns)}
 	k := 1 + s.Intn(enumMaxK)
 	alpha, maxLen := tupleScope(c.Typ, k, thorough)
+	buf := make([]int, 0, maxLen[0]+maxLen[1]+maxLen[2])
 	c.Args = make([][]int, k)
 	for i := range c.Args {
-		c.Args[i] = pbt.Seq(s, 0, maxLen[i], func(s pbt.Src) int { return s.Intn(alpha) })
+		n := s.Intn(maxLen[i] + 1)
+		start := len(buf)
+		for j := 0; j < n; j++ {
+			buf = append(buf, s.Intn(alpha))
+		}
+		c.Args[i] = buf[start:len(buf):len(buf)]
 	}
 	return c
 }
